@@ -245,6 +245,7 @@ def plan(tier, seed):
     p.append(("roundtrip_builders", dict(kind="cloud", choice=["scaleway", "dev1-s"], save_calc=True)))
     p.append(("roundtrip", dict(skeleton="TX", save_calc=False)))
     p.append(("roundtrip", dict(skeleton="TX", save_calc=True, args={"shared": True})))
+    p.append(("roundtrip", dict(skeleton="TX", save_calc=False, args={"same_names": True})))
     p.append(("roundtrip", dict(skeleton="T1", save_calc=False, custom_sources=True)))
     p.append(("roundtrip", dict(skeleton="T9", save_calc=True, custom_sources=True)))
     p.append(("roundtrip", dict(skeleton="T1e", save_calc=True, post_edit=dict(k="list_op", obj="step_empty", attr="jobs", op="append", args=["job"]))))
